@@ -204,6 +204,17 @@ CHECKS = {
         design_ref="DESIGN.md section 5 C19",
         note="Known finding D21 (HKDF input is the unclamped stored secret, the documentation says clamped) is carved "
              "out by signature; every other deviation is a violation."),
+    "C20": dict(
+        technique="TLA+ CApi model (handle life-cycle, fault placements, callback schedules) enumerated by TLC with the required "
+                  "status of every call; each behaviour executed against the C entry points of bindings/C compiled from /repo",
+        text="TLC enumerates 4 call templates x one fault at every call (NULL handle first, write callback failing once) x 3 "
+             "callback acceptance schedules (everything, one byte, <=3 bytes with EINTR), each template ending with uses of "
+             "handles the interface has cleared; the entry points are called exactly so (a process death is attributed to the "
+             "behaviour), every status is compared with the model, the archive is read back by the Rust reader and "
+             "extracted through mla_roarchive_extract with piecewise-accepting writers.",
+        design_ref="DESIGN.md section 5 C20",
+        note="The bindings' source file is compiled into the harness binary (same code as libmla); only the default layers "
+             "are reachable through the C interface."),
 }
 
 NOT_YET = "check not built yet in this round (planned in DESIGN.md section 9); not claimed until its machinery exists"
